@@ -254,7 +254,7 @@ impl SauceData {
             }
         }
         let len = if num_comments > 0 {
-            if (data.len() - SAUCE_LEN) as i32 - num_comments as i32 * 64 - 5 < 0 {
+            if data.len() - SAUCE_LEN < num_comments as usize * 64 + 5 {
                 return Err(SauceError::InvalidCommentBlock.into());
             }
             let comment_start = (data.len() - SAUCE_LEN) - num_comments as usize * 64 - 5;
